@@ -612,8 +612,8 @@ class Gen(object):
             x = r.random()
             if x < 0.25:
                 bits = '0' * r.choice([1, 7, 8, 9, 16, 24]) + bits       # leading zero bits / octets
-            elif x < 0.3:
-                bits = '0' * len(bits)
+            elif x < 0.35:
+                bits = '0' * max(len(bits), r.choice([1, 2, 4, 8, 13]))     # all-zero and not empty
             return ('bits', bits)
         if k == 'null':
             return ('null',)
